@@ -69,6 +69,9 @@ func runC18(w *World, r *Report) {
 	checkGB(w, r, la, "R1", s1Table())
 	hrLockOwnersUsePointerReceivers(w, r, "R1", "lunar/")
 	hrAllLocksReleased(w, r, la, "R1", "lunar/")
+	hrDeepCopyAlwaysCopies(w, r, "R2")
+	hrGlobalRegistryUnderItsLock(w, r, la, "R1")
+	hrQueuedRequestIdentity(w, r, "R6")
 	// the response cache's size re-check reads the live fields under the lock (C12.R5)
 	r.Borrow(w, runC12, map[string]string{"R5": "R1"})
 	hrVacuumStartOnce(w, r, la, "R1")
